@@ -128,7 +128,7 @@ impl DebugSession {
         }
     }
 
-    fn next_seq(&mut self) -> i64 {
+    fn next_seq(&self) -> i64 {
         #[cfg(feature = "verif")]
         let _post_seq = crate::verif::sched::PointOnDrop("session:post_seq");
         self.server_seq
@@ -459,6 +459,11 @@ impl DebugSession {
     ) -> anyhow::Result<()> {
         #[cfg(feature = "verif")]
         crate::verif::sched::point("session:pre_seq");
+        #[cfg(feature = "verif")]
+        crate::verif::sched::point("session:pre_lock");
+        // the sequence number must be allocated under the transport lock, otherwise
+        // another writer may put a greater number on the wire first
+        let mut lock = self.io.lock().unwrap();
         let rsp = DapResponse {
             seq: self.next_seq(),
             r#type: "response",
@@ -470,9 +475,6 @@ impl DebugSession {
         };
         let value = serde_json::to_value(rsp)?;
 
-        #[cfg(feature = "verif")]
-        crate::verif::sched::point("session:pre_lock");
-        let mut lock = self.io.lock().unwrap();
         lock.write_message(&value)
     }
 
@@ -488,10 +490,10 @@ impl DebugSession {
     fn send_event_raw(&mut self, name: &'static str, body: Option<Value>) -> anyhow::Result<()> {
         #[cfg(feature = "verif")]
         crate::verif::sched::point("session:pre_seq");
-        let seq = self.next_seq();
         #[cfg(feature = "verif")]
         crate::verif::sched::point("session:pre_lock");
         let mut lock = self.io.lock().unwrap();
+        let seq = self.next_seq();
 
         protocol::send_event(seq, &mut *lock, name, body)
     }
@@ -557,14 +559,13 @@ impl DebugSession {
                     Ok(_) => {
                         #[cfg(feature = "verif")]
                         crate::verif::sched::point("fwd_out:pre_seq");
-                        let s = seq.fetch_add(1, std::sync::atomic::Ordering::Relaxed);
-                        #[cfg(feature = "verif")]
-                        crate::verif::sched::point("fwd_out:post_seq");
-
                         #[cfg(feature = "verif")]
                         crate::verif::sched::point("fwd_out:pre_lock");
                         {
                             let mut lock = io.lock().unwrap();
+                            let s = seq.fetch_add(1, std::sync::atomic::Ordering::Relaxed);
+                            #[cfg(feature = "verif")]
+                            crate::verif::sched::point("fwd_out:post_seq");
                             // TODO log it somehow
                             _ = protocol::send_event(
                                 s,
@@ -596,14 +597,13 @@ impl DebugSession {
                     Ok(_) => {
                         #[cfg(feature = "verif")]
                         crate::verif::sched::point("fwd_err:pre_seq");
-                        let s = seq.fetch_add(1, std::sync::atomic::Ordering::Relaxed);
-                        #[cfg(feature = "verif")]
-                        crate::verif::sched::point("fwd_err:post_seq");
-
                         #[cfg(feature = "verif")]
                         crate::verif::sched::point("fwd_err:pre_lock");
                         {
                             let mut lock = io.lock().unwrap();
+                            let s = seq.fetch_add(1, std::sync::atomic::Ordering::Relaxed);
+                            #[cfg(feature = "verif")]
+                            crate::verif::sched::point("fwd_err:post_seq");
                             // TODO log it somehow
                             _ = protocol::send_event(
                                 s,
